@@ -22,7 +22,7 @@ for meta in sorted(glob.glob(os.path.join(VERIF, "seeded", "*", "meta.json"))):
     m = json.load(open(meta))
     for d in m.get("detected_by", []):
         if d["prop"] == prop:
-            entries.append({"prop": prop, "patch": os.path.join(os.path.dirname(meta), "patch.diff"), "expect": d["expect"], "seed": m["id"]})
+            entries.append({"prop": prop, "patch": os.path.join(os.path.dirname(meta), "patch.diff"), "expect": d["expect"], "seed": m["id"], "stale": m.get("state", "") if str(m.get("state", "")).startswith("stale") else ""})
 
 for b in sorted(glob.glob(os.path.join(VERIF, "benign", "*", "patch.diff"))):
     entries.append({"prop": prop, "patch": b, "benign": os.path.basename(os.path.dirname(b))})
@@ -39,14 +39,17 @@ for e in entries:
             if diff.returncode != 0:
                 results.append({"mutant": name, "expect": e["expect"], "status": "skipped", "why": "commit not found"})
                 continue
-            ap = subprocess.run(["patch", "-R", "-p1", "-s", "-f", "-d", work], input=diff.stdout, capture_output=True, text=True)
+            ap = subprocess.run(["patch", "-R", "-p1", "-s", "-f", "-F0", "-d", work], input=diff.stdout, capture_output=True, text=True)
         elif "benign" in e:
             name = "benign:" + e["benign"]
             e["expect"] = "(no violation)"
-            ap = subprocess.run(["patch", "-p1", "-s", "-f", "-d", work], input=open(e["patch"]).read(), capture_output=True, text=True)
+            ap = subprocess.run(["patch", "-p1", "-s", "-f", "-F0", "-d", work], input=open(e["patch"]).read(), capture_output=True, text=True)
         else:
             name = "seeded:" + e["seed"]
-            ap = subprocess.run(["patch", "-p1", "-s", "-f", "-d", work], input=open(e["patch"]).read(), capture_output=True, text=True)
+            if e.get("stale"):
+                results.append({"mutant": name, "expect": e["expect"], "status": "skipped", "why": e["stale"]})
+                continue
+            ap = subprocess.run(["patch", "-p1", "-s", "-f", "-F0", "-d", work], input=open(e["patch"]).read(), capture_output=True, text=True)
         if ap.returncode != 0:
             results.append({"mutant": name, "expect": e["expect"], "status": "skipped", "why": "patch does not apply to the current tree"})
             continue
